@@ -42,7 +42,8 @@ type Case struct {
 
 // Obs is the parsed output of one cell.
 type Obs struct {
-	R       []string // fields of the R| line
+	R       []string   // fields of the first R| line
+	RAll    [][]string // every R| line: a rejected attempt is repeated in the same process
 	Called  []string
 	Lines   map[string]string // first field -> rest, for single-occurrence lines (A, S, G, INIT, IN)
 	InLines []string
@@ -66,9 +67,8 @@ func parseObs(r lib.ProcResult) *Obs {
 		case "R":
 			if o.R == nil {
 				o.R = strings.Split(rest, "|")
-			} else {
-				o.R = append(o.R, "DUPLICATE-R")
 			}
+			o.RAll = append(o.RAll, strings.Split(rest, "|"))
 		case "CALLED":
 			o.Called = append(o.Called, rest)
 		case "IN":
@@ -82,6 +82,35 @@ func parseObs(r lib.ProcResult) *Obs {
 		}
 	}
 	return o
+}
+
+// attempts is the number of times a rejected access / store / call / instantiation is
+// attempted in one process: twice by one syntactic site inside a loop, once more by a copy.
+const attempts = 3
+
+// repeatBlock renders the retry discipline around one attempt block.
+func repeatBlock(block string) string {
+	return "for ($ri = 0; $ri < 2; $ri++) {\n" + block + "}\n" + block
+}
+
+// retryVerdict inspects the status field of every attempt of a cell whose rule-table entry
+// is "denied": "" = all attempts denied.
+func (o *Obs) retryVerdict(want int) (class, detail string) {
+	if len(o.RAll) != want {
+		return "fatal", fmt.Sprintf("expected %d attempts, saw %d result lines", want, len(o.RAll))
+	}
+	for i, r := range o.RAll {
+		if len(r) > 0 && r[0] == "ok" {
+			if i == 0 {
+				return "leak", "attempt 1 succeeded"
+			}
+			return "leak-on-retry", fmt.Sprintf("attempt %d of the same rejected operation succeeded after attempt 1 had been refused and the error caught", i+1)
+		}
+		if len(r) == 0 || r[0] != "denied" {
+			return "fatal", "malformed result line"
+		}
+	}
+	return "", ""
 }
 
 func (o *Obs) status() string {
